@@ -180,6 +180,9 @@ NonAlnumHigh == {169, 215, 8594, 128512}
 HasSymbol(den) == \E k \in 1..Len(den) : den[k].t \in NameClasses \cup {"aval"} /\ \E p \in 1..Len(den[k].v) : den[k].v[p] \in NonAlnumHigh
 DevSymbol(e) == /\ HasSymbol(e.den) /\ L4(e) /\ Valid(e.p1.toks)
                 /\ e.p2.st = "err" /\ e.em.st = "err"
+(* both at once: a name with such a symbol that also starts like a number *)
+DevSymbolDigit(e) == /\ HasSymbol(e.den) /\ L4(e) /\ ~Valid(e.p1.toks) /\ DigitStartScope(e.p1.toks)
+                     /\ e.p2.st = "err" /\ e.em.st = "err"
 
 (* two ids in one compound: only the last one is kept *)
 TwoIdsAt(den) == {k \in 1..(Len(den) - 1) : den[k].t = "id" /\ den[k + 1].t = "id"}
